@@ -151,9 +151,9 @@ def run(ctx):
     # batch loop: decided under C19 as well; repeat here for the property's own evidence
     f = ctx.anchor(CORE + "batch::Verifier::<C>::verify")
     if f:
-        lr = loop_report(P, f)
-        dr = [bb for (bb, t, ci) in f.calls() if ci and ci.get("name") == "random"]
-        ctx.check(len(lr) == 1 and len(dr) == 1 and dr[0] in lr[0]["body"], "DRAW-item", f.key, "blinder-drawn-per-item",
+        from .c19 import batch_blinder
+        _msm, _sc, _pt, _drawn, good_ = batch_blinder(P, f, FnView.get(P, f))
+        ctx.check(good_, "DRAW-item", f.key, "blinder-drawn-per-item",
                   "the batch blinder must be drawn inside the per-item loop", f.loc)
     # (iv) distinct roles from distinct call-site executions + secret outputs depend on the rng
     f = ctx.anchor(CORE + "keys::dkg::part1")
